@@ -36,6 +36,19 @@ def generate(ctx):
     rng = ctx.rng
     if ctx.shard in ctx.pick((0,), (0, 1, 2)):
         yield "huge_level", dict(k=1, depth=12 if ctx.quick() else 13, drop=rng.randrange(16))
+    for _ in range(ctx.pick(250, 2500)):
+        # thin graphs, every root, depths far beyond the order: walks that end up circulating on cycles of out-degree-1
+        # vertices, where consecutive breadth-first levels hold the same vertices with different multiplicities
+        k = rng.choice([2, 2, 3])
+        n = 4 ** k
+        dens = rng.choice([0.2, 0.25, 0.3, 0.35])
+        acc = -np.ones((n, 4), dtype=int)
+        for v in range(n):
+            for j in range(4):
+                if rng.random() < dens:
+                    acc[v, j] = (v * 4 + j) % n
+        if (acc >= 0).any():
+            yield "deep_leaves", dict(k=k, arcs=G.acc_to_hex(acc), dens=dens)
     ks = ctx.pick([1, 2, 2, 3, 3, 4, 5], [1, 2, 3, 3, 4, 4, 5, 5])
     for _ in range(ctx.pick(500, 4000)):
         k = rng.choice(ks)
@@ -121,6 +134,10 @@ def check_graph(ctx, case):
                 layout = rng.choice(["C", "C", "F", "T"])
                 arg = frozen(mat) if layout == "C" else np.asfortranarray(mat) if layout == "F" else np.ascontiguousarray(mat.T).T
                 ctx.cls("matrix layout|" + layout)
+                dt = rng.choice([None, None, None, "int8", "uint8", "bool", "float64", "int16"])
+                if dt is not None:
+                    arg = np.asarray(arg).astype(dt)          # the element types 0/1 matrices are stored in
+                    ctx.cls("matrix element type|" + dt)
                 back = monitored(dsw.adjacency_matrix_to_accessor, big * 4, arg)
                 if back.kind != "ok" or not np.array_equal(np.asarray(back.value), acc):
                     ctx.fail("matrix-round-trip", "adjacency_matrix_to_accessor(accessor_to_adjacency_matrix(a)) != a (%s); %s" % (
@@ -253,6 +270,41 @@ def check_graph(ctx, case):
     ctx.done("graph", case, nontrivial)
 
 
+def check_deep_leaves(ctx, case):
+    dsw = import_dsw()
+    k = case["k"]
+    n = 4 ** k
+    acc = gens.acc_of(case)
+    lm = {v: [int(w) for w in acc[v] if w >= 0] for v in range(n) if (acc[v] >= 0).any()}
+    roots = sorted(lm) if n <= 16 else ctx.rng.sample(sorted(lm), min(len(lm), 12))
+    facc = frozen(acc)
+    for root in roots:
+        level = Counter({root: 1})
+        prev_support = None
+        for d in range(1, 15):
+            nxt = Counter()
+            for v, c in level.items():
+                for w in acc[v]:
+                    if w >= 0:
+                        nxt[int(w)] += c
+            level = nxt
+            if not level or sum(level.values()) > 5000:
+                break
+            same_support = prev_support == (set(level), sum(level.values()))
+            prev_support = (set(level), sum(level.values()))
+            for name, kw in (("accessor", dict(accessor=facc)), ("latter map", dict(latter_map=lm))):
+                r = monitored(dsw.obtain_leaf_vertices, 10 ** 7, root, d, **kw)
+                if r.kind != "ok" or Counter(int(x) for x in np.asarray(r.value).reshape(-1).tolist()) != level:
+                    ctx.fail("leaf-query", "obtain_leaf_vertices(%d, depth %d, %s) %s, expected multiset %s; k=%d arcs=%s" % (
+                        root, d, name, r.describe(), dict(sorted(level.items())[:8]), k, case["arcs"]))
+                    return ctx.done("deep_leaves", case, True)
+            ctx.evaluations += 1
+            if same_support:
+                ctx.cls("deep leaf level with the vertices and size of the previous level")
+    ctx.cls("deep leaf queries on a thin graph")
+    ctx.done("deep_leaves", case, True)
+
+
 def check_huge_level(ctx, case):
     """Leaf query whose intermediate breadth-first levels exceed a million vertices (order 1, one arc removed, depth 12-13)."""
     dsw = import_dsw()
@@ -282,7 +334,7 @@ def check_huge_level(ctx, case):
     ctx.done("huge_level", case, True)
 
 
-CHECKS = {"graph": check_graph, "huge_level": check_huge_level}
+CHECKS = {"graph": check_graph, "huge_level": check_huge_level, "deep_leaves": check_deep_leaves}
 
 
 def floors(agg, tier):
@@ -291,7 +343,8 @@ def floors(agg, tier):
     for name, need in (("density|partial", 500), ("density|empty", 20), ("density|complete", 20), ("illegal-matrix|rejected", 1000),
                        ("leaf-query|live root", 1000), ("leaf-query|dead root", 200), ("k|5", 20),
                        ("hand-built map in arbitrary order", 500), ("converters repeated after their result was scrambled", 300), ("matrix layout|F", 200), ("matrix layout|T", 200), ("leaf-query|level beyond a million vertices", 1), ("illegal-matrix|re-wired rejected", 500),
-                       ("earlier matrix re-read after a later conversion (k=5)", 20), ("leaf queries repeated after an in-place edit", 500)):
+                       ("earlier matrix re-read after a later conversion (k=5)", 20), ("leaf queries repeated after an in-place edit", 500), ("deep leaf queries on a thin graph", 2000),
+                       ("deep leaf level with the vertices and size of the previous level", 2000), ("matrix element type|int8", 100)):
         if c.get(name, 0) < need:
             out.append("%s observed %d < %d" % (name, c.get(name, 0), need))
     return out
